@@ -514,4 +514,52 @@ theorem E_sum {E : K → K} (hadd : ∀ x y, E (x + y) = E x * E y) (hpos : ∀ 
   | nil => simp [E_zero hadd hpos]
   | cons x l ih => simp [hadd, ih]
 
+/-! ### chains: a null member, partial application -/
+
+theorem apply_chain_null_right (E : K → K) (floor : K) (n : Norm K) (b : Bin) (v : K) :
+    apply E floor (.chained n .null) b v = apply E floor n b v := by
+  cases h : apply E floor n b v <;> simp [apply, h]
+
+theorem apply_chain_null_left (E : K → K) (floor : K) (n : Norm K) (b : Bin) (v : K) :
+    apply E floor (.chained .null n) b v = apply E floor n b v := by
+  simp [apply]
+
+theorem undo_chain_null_right (E : K → K) (n : Norm K) (b : Bin) (v : K) :
+    undo E (.chained n .null) b v = undo E n b v := by
+  cases h : undo E n b v <;> simp [undo, h]
+
+theorem undo_chain_null_left (E : K → K) (n : Norm K) (b : Bin) (v : K) :
+    undo E (.chained .null n) b v = undo E n b v := by
+  simp [undo]
+
+theorem reported_chain_null_right (n : Norm K) (b : Bin) : reported (.chained n .null) b = reported n b := by
+  cases h : reported n b <;> simp [reported, h]
+
+theorem reported_chain_null_left (n : Norm K) (b : Bin) : reported (.chained .null n) b = reported n b := by
+  cases h : reported n b <;> simp [reported, h]
+
+theorem isTrivial_of_isFirstTrivial (tol : K) (n1 n2 : Norm K) (h : isFirstTrivial tol n1 n2 = some true) :
+    isTrivial tol n1 = true := by
+  cases n1 <;> simp_all [isFirstTrivial]
+
+theorem isTrivial_of_isSecondTrivial (tol : K) (n1 n2 : Norm K) (h : isSecondTrivial tol n1 n2 = some true) :
+    isTrivial tol n2 = true := by
+  cases n2 <;> simp_all [isSecondTrivial]
+
+/-! ### the check on use -/
+
+/-- every member that checks its set-up state was set up, for a geometry `>=` that of the data -/
+def UseTree.AllSetUp : UseTree → Prop
+  | .null => True
+  | .noCheck _ _ => True
+  | .checked su ge => su = true ∧ ge = true
+  | .chain _ _ f s => f.AllSetUp ∧ s.AllSetUp
+
+theorem useRV_iff (t : UseTree) : useRV t = true ↔ t.AllSetUp := by
+  induction t with
+  | null => simp [useRV, UseTree.AllSetUp]
+  | noCheck su ge => simp [useRV, UseTree.AllSetUp]
+  | checked su ge => simp [useRV, UseTree.AllSetUp, checkUse]
+  | chain su ge f s ihf ihs => simp [useRV, UseTree.AllSetUp, ihf, ihs]
+
 end StirVerif.C13
